@@ -66,6 +66,12 @@ def edits():
     for t in INTS_U + ["usize", "bool", "char8"]:
         out.append(("class:neg:%s" % t, wrap_main([
             "var a: %s = %s;" % (t, lit_for(t)), "var c: %s = -a;" % t]), {550}))
+    # the sign of a literal is the operator applied to the literal: a literal that carries an unsigned suffix cannot
+    # be negated, whatever the magnitude (an unsuffixed `-1` in an unsigned context is a literal out of range instead: L1142, C09)
+    for t in INTS_U + ["usize"]:
+        for v in (1, 23, 128, 2 ** 31, 2 ** 63, 2 ** 127 - 1, 2 ** 127, 2 ** 127 + 1, 2 ** 128 - 1):
+            for form, lit in (("suffixed", "-%d%s" % (v, t)), ("hex", "-0x%x%s" % (v, t)), ("spaced", "- %d%s" % (v, t))):
+                out.append(("class:neglit:%s:%s:%d" % (t, form, v.bit_length()), wrap_main(["var c: %s = %s;" % (t, lit)]), {550}))
     for t in INTS_S + ["usize", "char8"]:
         out.append(("class:not:%s" % t, wrap_main([
             "var a: %s = %s;" % (t, lit_for(t)), "var c: %s = !a;" % t]), {550}))
